@@ -73,6 +73,18 @@ def run(ctx):
         elif want is not None and not r.endswith("@%d" % want) and len(ctx.violations) < 40:
             ctx.report("Check reports %s for a violated %s rule, the offending value starts at %d: %r" % (r, rule, want, t[:200]), "c04d:" + t,
                        {"schema": t, "violated_rule": rule, "implementation": r, "expected_position": want}, case=t)
+    # rule parameters beyond the machine word: a length or item count of 2^64 + k must not be read as k
+    huge = []
+    for V in (2 ** 64, 2 ** 64 + 1, 2 ** 64 + 3, 10 ** 20, 2 ** 65 + 2, 10 * 2 ** 64 + 1, 2 ** 128 + 1):
+        huge.append(('"abc" // {minLength: %d}' % V, "minLength"))
+        huge.append(('{\n  "k": "abcd" // {minLength: %d}\n}' % V, "minLength"))
+        huge.append(('[ // {minItems: %d}\n  1, 2\n]' % V, "minItems"))
+        huge.append(('{\n  "k": [ // {minItems: %d}\n    "x"\n  ]\n}' % V, "minItems"))
+    for (t, rule), o in zip(huge, vc.impl(["schema"], [json.dumps({"schema": t, "ops": [["check"]]}) for t, _ in huge])):
+        ctx.evaluations += 1
+        if json.loads(o)[0] == "ok" and len(ctx.violations) < 40:
+            ctx.report("Check accepts a schema whose example violates its own rule %s (a parameter beyond 2^64 is read modulo 2^64): %r" % (rule, t[:200]), "c04c:" + t, {"schema": t, "violated_rule": rule}, case=t)
+    ctx.extra["huge_parameter_cases"] = len(huge)
     import os
     cf = os.path.join(vc.ROOT, "corpus", "C04", "fixed.json")
     if os.path.exists(cf):
